@@ -3,6 +3,7 @@
 package main
 
 import (
+	"encoding/json"
 	"fmt"
 	"os"
 	"sort"
@@ -127,6 +128,8 @@ func main() {
 		modeC03()
 	case "c01":
 		modeC01()
+	case "c02":
+		modeC02()
 	default:
 		res.InfraError("unknown mode %s", mode)
 	}
@@ -151,7 +154,14 @@ func replayMode() {
 		return
 	}
 	env := envFor(rp.Mode, p, rp.Extra)
-	x, err := vrt.Replay(baseCfg(), rp.Choices, func() { runTransfer(p, env) })
+	cfg := baseCfg()
+	var fspec FaultSpec
+	if rp.Mode == "c02" {
+		json.Unmarshal([]byte(rp.Extra), &fspec)
+		env, _ = c02Env(p, &fspec)
+		cfg = c02Cfg()
+	}
+	x, err := vrt.Replay(cfg, rp.Choices, func() { runTransfer(p, env) })
 	if err != nil {
 		res.InfraError("%v", err)
 		return
@@ -164,6 +174,8 @@ func replayMode() {
 		checkC03(p, x, last)
 	case "c01":
 		checkC01(p, x, last)
+	case "c02":
+		checkC02(p, &fspec, x, last)
 	}
 }
 
